@@ -4,7 +4,7 @@ from __future__ import annotations
 import itertools, re, fnmatch
 from pyvc.api import *
 
-NAMES = ["sel", "notepad", "android", "organic", "all_x", "anyx", "ofx", "them1", "x-1", "_u", "sel_1", "sel_2", "n1", "not_wanted", "not-x", "and_x", "or-1", "_wanted", "1-x", "of_1"]
+NAMES = ["sel", "notepad", "android", "organic", "all_x", "anyx", "ofx", "them1", "x-1", "_u", "sel_1", "sel_2", "n1", "not_wanted", "not-x", "and_x", "or-1", "_wanted", "1-x", "of_1", "rules"]
 
 
 def tokenize(s):
@@ -141,7 +141,7 @@ def shapes(n):
             yield f"{sh} {op} not (not {{}})"
 
 
-OPERANDS = NAMES + ["1 of sel*", "all of sel_*", "any of *1", "1 of them", "all of them", "1 of _*", "1 of n*", "all of *x*", "1 of nomatch*", "1 of sel_*_1", "1 of not*", "all of *-*"]
+OPERANDS = NAMES + ["1 of sel*", "all of sel_*", "any of *1", "1 of them", "all of them", "1 of _*", "1 of n*", "all of *x*", "1 of nomatch*", "1 of sel_*_1", "1 of not*", "all of *-*", "1 of *_u", "all of *_wanted", "1 of *_1", "any of *_*"]
 
 
 @register
@@ -176,7 +176,10 @@ class C02Bounded(Bounded):
         from sigma.rule import SigmaDetections, SigmaDetection
         from sigma.conditions import SigmaCondition
         from sigma.exceptions import SigmaError
-        dets = SigmaDetections({n: SigmaDetection.from_definition({"f": n}) for n in NAMES}, ["sel"])
+        import sigma.collection, sigma.filters, sigma.correlations       # everything a real process has loaded (class-level tables of other document kinds included)
+        dets = SigmaDetections.from_dict({**{n: {"f": n} for n in NAMES}, "condition": "sel"})      # the detection section as a rule document carries it
+        if sorted(dets.detections) != sorted(NAMES):
+            return {"ev": 1, "nontriv": 1, "seen": {"names": 1}, "firsts": {"names": {"text": f"a detection section with the names {sorted(NAMES)} is loaded with the detections {sorted(dets.detections)}", "input": "names"}}, "samples": []}
         operands = OPERANDS
         ev = nontriv = 0
         seen, firsts, samples = {}, {}, []
